@@ -308,7 +308,7 @@ func c08(c *wk.Ctx) {
 		return
 	}
 	per := c.N(16, 48)
-	nchild := c.N(4, 8)
+	nchild := c.N(4, 48)
 	wk.Parallel(nchild, 8, func(i int) {
 		wk.RunBatch(c, "c08hist", i*1000, i*1000+per, c08extra{Resume: i%2 == 1}, 40*time.Minute, onDeath)
 	})
